@@ -290,7 +290,10 @@ package sm2
 //@   (ensures window (bvsle (len result.0) (cap result.0)))
 //@   (ensures fresh (or (isnil result.0) (fresh-obj result.0)))
 //@   (ensures empty (=> (not (bvsgt length 0)) (not result.1))))
-//@ (func BytesCombine trusted)
+// BytesCombine is bytes.Join: its result is as long as its pieces together (assumed below 2^40 bytes here: the callers
+// join a handful of 32-byte strings).
+//@ (func BytesCombine trusted
+//@   (ensures small (and (bvsle (len result) (cap result)) (bvslt (len result) #x0000010000000000))))
 //@ (func keXHat autoloops
 //@   (uses "big" "big:axioms")
 //@   (requires nn (not (isnil x)))
@@ -318,3 +321,18 @@ package sm2
 //@                                                     (big.ofbytes (old (row data)) (bvadd (off data) 33) 32))))
 //@        (not (isnil result.1))))
 //@   (ensures len (=> (isnil result.1) (= (len result.0) (bvsub (len data) 97)))))
+// keyExchange (GM/T 0003.3): for well-formed keys no panic; an error instead of a key when the peer's ephemeral point is
+// rejected by IsOnCurve.  The curve is the package's own (P256Sm2), so the calls resolve to the contracts of sm2/p256.go.
+//@ (func keyExchange
+//@   (uses "big" "big:axioms")
+//@   (requires init (and (sm2init) (consts)))
+//@   (requires keys (and (wfpriv pri) (wfpub pub) (wfpriv rpri) (wfpub rpub)))
+//@   (ensures either (=> (isnil err) (and (= (len s1) 32) (= (len s2) 32)))))
+//@ (func KeyExchangeA
+//@   (uses "big" "big:axioms")
+//@   (requires init (and (sm2init) (consts)))
+//@   (requires keys (and (wfpriv priA) (wfpub pubB) (wfpriv rpri) (wfpub rpubB))))
+//@ (func KeyExchangeB
+//@   (uses "big" "big:axioms")
+//@   (requires init (and (sm2init) (consts)))
+//@   (requires keys (and (wfpriv priB) (wfpub pubA) (wfpriv rpri) (wfpub rpubA))))
